@@ -1,6 +1,7 @@
 import MJ.Proofs.Fold
 import MJ.Proofs.FoldTables
 import MJ.Proofs.FoldPrimsLawful
+import MJ.Proofs.FoldStmt
 /-!
 # C04 — compile-time evaluation is transparent: literals behave like variables
 
@@ -39,21 +40,35 @@ def C04_full : Prop :=
 
 /-! A small concrete instance of the primitives for the satisfiability examples. -/
 
+/-- the callee of the small instance: receiver and argument values in the order the callee gets them -/
+def P0callX (recv : List V) (pieces : List ArgV) : Except Err V :=
+  .ok (.list (recv ++ pieces.map fun p => match p with
+    | .pos v | .posSplat v | .kw _ v | .kwSplat v => v))
+
+@[simp] def P0add (a b : V) : Except Err V :=
+  match a, b with
+  | .int x, .int y => .ok (.int (x + y))
+  | _, _ => .error .invalidOperation
+
+@[simp] def P0fdiv (a b : V) : Except Err V :=
+  match a, b with
+  | .int x, .int y => if y = 0 then .error .invalidOperation else .ok (.int (x / y))
+  | _, _ => .error .invalidOperation
+
+@[simp] def P0neg (a : V) : Except Err V :=
+  match a with
+  | .int x => .ok (.int (-x))
+  | _ => .error .invalidOperation
+
 def P0 : Prims where
-  add a b := match a, b with
-    | .int x, .int y => .ok (.int (x + y))
-    | _, _ => .error .invalidOperation
+  add := P0add
   sub _ _ := .error .invalidOperation
   mul _ _ := .error .invalidOperation
   div _ _ := .error .invalidOperation
-  fdiv a b := match a, b with
-    | .int x, .int y => if y = 0 then .error .invalidOperation else .ok (.int (x / y))
-    | _, _ => .error .invalidOperation
+  fdiv := P0fdiv
   rem _ _ := .error .invalidOperation
   pow _ _ := .error .invalidOperation
-  neg a := match a with
-    | .int x => .ok (.int (-x))
-    | _ => .error .invalidOperation
+  neg := P0neg
   concat _ _ := .str ""
   eq a b := match a, b with
     | .int x, .int y => x == y
@@ -75,21 +90,39 @@ def P0 : Prims where
   callKw _ _ ps ks := .ok (.list (ps ++ ks.map (·.2)))
   filter _ _ _ _ := .error (.named "UnknownFilter")
   test _ _ _ _ := .error (.named "UnknownTest")
+  callX _ _ _ recv pieces := P0callX recv pieces
   foldsVariant _ := true
   codegenSpecial _ := true
 
 theorem P0_lawful : P0.Lawful where
-  add := by intro a b v h; cases a <;> cases b <;> simp [P0] at h; subst h; simp
+  add := by
+    intro a b v h
+    have h' : P0add a b = .ok v := h
+    unfold P0add at h'
+    split at h'
+    · cases h'; simp
+    · cases h'
   sub := by intro a b v h; simp [P0] at h
   mul := by intro a b v h; simp [P0] at h
   div := by intro a b v h; simp [P0] at h
   fdiv := by
     intro a b v h
-    cases a <;> cases b <;> simp [P0] at h
-    split at h <;> simp at h; subst h; simp
+    have h' : P0fdiv a b = .ok v := h
+    unfold P0fdiv at h'
+    split at h'
+    · split at h'
+      · cases h'
+      · cases h'; simp
+    · cases h'
   rem := by intro a b v h; simp [P0] at h
   pow := by intro a b v h; simp [P0] at h
-  neg := by intro a v h; cases a <;> simp [P0] at h; subst h; simp
+  neg := by
+    intro a v h
+    have h' : P0neg a = .ok v := h
+    unfold P0neg at h'
+    split at h'
+    · cases h'; simp
+    · cases h'
   concat := by intro a b; simp [P0]
   contains := by
     intro a b v h
@@ -257,6 +290,206 @@ example : constKws (.cons "a" (.const (.int 1)) (.cons "b" (.const (.str "x")) .
     = some [("a", .int 1), ("b", .str "x")] := by
   simp [constKws]
 
+/-! ## every call form: function, method, object, filter, test - with `*args` and `**kwargs`
+
+`compile_call_args` serves all of them.  The general form `.callx kind recv name args` carries the
+receiver (method call), callee (object call) or subject (filter, test) and any mix of positional,
+`*splat`, keyword and `**splat` arguments; its run-time meaning is the two loops of
+`compile_call_args` (positional and `*` values first, keyword and `**` values second) handed to the
+shared `callX` (`MergeKwargs`, `UnpackLists`, the callee). -/
+
+/-- static keyword arguments equal the dynamic path for EVERY call form: when all keyword values are
+    constants and there is no `**splat` (a `*splat` may be present) the keyword pieces collected at
+    compile time are what run-time evaluation of the second loop yields, and the emitted code equals
+    the unfolded run-time semantics - for a function, a method, an object, a filter and a test call
+    alike, and for the call of a `{% call %}` block on any of them (which adds the caller) -/
+theorem static_kwargs_eq_dynamic_all_forms (P : Prims) (hP : P.Lawful) (m : Mode) (ρ : Env) (args : Args)
+    (hw : args.WF) (ks : List (String × V)) (hk : constKwArgs args = some ks) :
+    evalCArgsKw P m ρ args = .ok (kwPieces ks) ∧ evalRtArgsKw P m ρ args = .ok (kwPieces ks) ∧
+    (∀ kind recv name, recv.WF →
+      evalC P m ρ (.callx kind recv name args) = evalRt P m ρ (.callx kind recv name args)) ∧
+    (∀ kind recv name caller, recv.WF → P.codegenSpecial "static-kwargs-off-for-caller" = true →
+      evalCallBlockXC P m ρ kind recv name args caller = evalCallBlockXRt P m ρ kind recv name args caller) := by
+  have h1 : evalRtArgsKw P m ρ args = .ok (kwPieces ks) := constKwArgs_sound P m ρ args ks hk
+  refine ⟨by rw [evalCArgsKw_eq' m ρ hP args hw, h1], h1, ?_, ?_⟩
+  · intro kind recv name hr
+    exact fold_transparent P hP m ρ _ (by simp only [Expr.WF]; exact ⟨hr, hw⟩)
+  · intro kind recv name caller hr hs
+    exact evalCallBlockX_eq m ρ hP hs kind recv name args caller hr hw
+
+/-- … and without any hypothesis on the arguments (computed keyword values, `**splat`s): the emitted
+    code of every call form is its run-time semantics, and hoisting literals anywhere in receiver and
+    arguments - inside a splatted list or map too, or the whole splatted container - changes nothing -/
+theorem call_forms_transparent (P : Prims) (hP : P.Lawful) (m : Mode) (ρ : Env) (kind : CallKind)
+    (recv : Exprs) (name : String) (args : Args) (hr : recv.WF) (ha : args.WF) :
+    evalC P m ρ (.callx kind recv name args) = evalRt P m ρ (.callx kind recv name args) ∧
+    ∀ recv' args', HoistList P ρ recv recv' → HoistArgs P ρ args args' →
+      evalC P m ρ (.callx kind recv' name args') = evalC P m ρ (.callx kind recv name args) := by
+  have hw : (Expr.callx kind recv name args).WF := by simp only [Expr.WF]; exact ⟨hr, ha⟩
+  refine ⟨fold_transparent P hP m ρ _ hw, ?_⟩
+  intro recv' args' h1 h2
+  exact hoist_transparent P hP m ρ _ _ hw (by rw [Hoist]; exact ⟨recv', args', rfl, h1, h2⟩)
+
+/-- the static path really is taken in the general form, also next to a `*splat` -/
+theorem static_kwargs_path_all_forms (P : Prims) (m : Mode) (ρ : Env) (kind : CallKind) (recv : Exprs)
+    (name : String) (args : Args) (hs : P.codegenSpecial "static-kwargs" = true)
+    (ks : List (String × V)) (hk : constKwArgs args = some ks) :
+    evalC P m ρ (.callx kind recv name args) =
+      (match evalCList P m ρ recv with
+       | .error e => .error e
+       | .ok rv => match evalCArgsPos P m ρ args with
+         | .error e => .error e
+         | .ok ps => P.callX m kind name rv (ps ++ kwPieces ks)) := by
+  rw [evalC]; simp only [hk, hs, gate]
+  cases evalCList P m ρ recv with
+  | error e => rfl
+  | ok rv => cases evalCArgsPos P m ρ args <;> rfl
+
+/-- `**splat` switches the static path off, `*splat` does not (`static_kwargs = false` only in the
+    `KwargSplat` arm and for a non-constant keyword value) -/
+theorem splats_and_the_static_path (e : Expr) (rest : Args) :
+    constKwArgs (.kwSplat e rest) = none ∧ constKwArgs (.posSplat e rest) = constKwArgs rest ∧
+    constKwArgs (.pos e rest) = constKwArgs rest := by
+  simp [constKwArgs]
+
+/-- `ob.m(*[1, 2], ka=3)`: a method call with a `*splat` and a static keyword argument -/
+example : constKwArgs (.posSplat (.list (.cons (.const (.int 1)) (.cons (.const (.int 2)) .nil)))
+      (.kw "ka" (.const (.int 3)) .nil)) = some [("ka", .int 3)] ∧
+    evalC P0 .strict ρ0 (.callx .method (.cons (.var "v0") .nil) "m"
+      (.posSplat (.list (.cons (.const (.int 1)) (.cons (.const (.int 2)) .nil))) (.kw "ka" (.const (.int 3)) .nil)))
+      = .ok (.list [.int 0, .list [.int 1, .int 2], .int 3]) := by
+  refine ⟨by simp [constKwArgs], ?_⟩
+  simp [evalC, evalCList, evalCArgsPos, constKwArgs, kwPieces, gate, folded, foldFirst, asConst, constValues, lookup, ρ0, P0, P0callX]
+
+/-- the call of a `{% call %}` block on any callee with any arguments keeps its caller, and literal
+    and variable arguments behave alike -/
+theorem call_block_all_forms_keep_caller (P : Prims) (hP : P.Lawful)
+    (hs : P.codegenSpecial "static-kwargs-off-for-caller" = true) (m : Mode) (ρ : Env) (kind : CallKind)
+    (recv recv' : Exprs) (name : String) (args args' : Args) (caller : V) (hr : recv.WF) (ha : args.WF)
+    (h1 : HoistList P ρ recv recv') (h2 : HoistArgs P ρ args args') :
+    evalCallBlockXC P m ρ kind recv name args caller = evalCallBlockXRt P m ρ kind recv name args caller ∧
+    evalCallBlockXC P m ρ kind recv' name args' caller = evalCallBlockXC P m ρ kind recv name args caller := by
+  have e1 := evalCallBlockX_eq m ρ hP hs kind recv name args caller hr ha
+  refine ⟨e1, ?_⟩
+  rw [evalCallBlockX_eq m ρ hP hs kind recv' name args' caller (hoistList_WF' ρ recv recv' hr h1)
+    (hoistArgs_WF' ρ args args' ha h2), e1]
+  exact evalCallBlockX_hoist m ρ hP kind recv recv' name args args' caller hr ha h1 h2
+
+/-- `{% call ob.m(ka=1) %}`: the keyword pieces are `ka` and the caller -/
+example : evalCallBlockXC P0 .lenient ρ0 .method (.cons (.var "v1") .nil) "m" (.kw "ka" (.const (.int 5)) .nil) (.other 7)
+    = .ok (.list [.int 1, .int 5, .other 7]) := by
+  simp [evalCallBlockXC, evalCList, evalCArgsPos, evalCArgsKw, evalC, gate, lookup, ρ0, P0, P0callX]
+
+/-! ## `a in <literal container>`: one relation for every container length and item kind
+
+The seeded change C04-5 compiled the right operand of `in` into a lookup map (searched through `Ord`)
+when it was a literal list of eight or more plain literals and the left operand was not constant,
+while the folder and lists supplied through variables are scanned with `==`.  In the code as it is,
+the right operand of `in` is compiled like any other operand: a literal container is ONE `LoadConst` of
+the very list the folder builds, followed by `In`. -/
+
+/-- the emitted code, for every number of items and every kind of item: the code of the left operand,
+    `LoadConst(list)`, `In` -/
+theorem in_literal_container_code (P : Prims) (hL : P.foldsVariant "List" = true)
+    (hF : P.codegenSpecial "fold-first" = true) (l : Expr) (items : Exprs) (vs : List V)
+    (hc : constValues items = some vs) (hl : asConst P l = none) :
+    constsC P (.bin .in_ l (.list items)) = constsC P l ++ [.list vs] ∧
+    ∀ (m : Mode) (ρ : Env), evalC P m ρ (.bin .in_ l (.list items)) =
+      (match evalC P m ρ l with
+       | .error e => .error e
+       | .ok a => inInstr P m a (.list vs)) := by
+  have h1 : foldFirst P (.bin .in_ l (.list items)) = none := by
+    simp [foldFirst, asConst, hl, gate]
+  have h2 : foldFirst P (.list items) = some (.list vs) := by
+    simp [foldFirst, asConst, hc, gate, hL, hF]
+  refine ⟨?_, ?_⟩
+  · simp [constsC, foldedK, h1, h2]
+  · intro m ρ
+    rw [evalC] <;> try (intro h; cases h)
+    simp only [folded, h1]
+    cases evalC P m ρ l with
+    | error e => rfl
+    | ok a => simp [evalC, folded, h2, binInstr]
+
+/-- … and the same for a tuple literal -/
+theorem in_literal_tuple_code (P : Prims) (hL : P.foldsVariant "Tuple" = true)
+    (hF : P.codegenSpecial "fold-first" = true) (l : Expr) (items : Exprs) (vs : List V)
+    (hc : constValues items = some vs) (hl : asConst P l = none) :
+    constsC P (.bin .in_ l (.tuple items)) = constsC P l ++ [.tuple vs] ∧
+    ∀ (m : Mode) (ρ : Env), evalC P m ρ (.bin .in_ l (.tuple items)) =
+      (match evalC P m ρ l with
+       | .error e => .error e
+       | .ok a => inInstr P m a (.tuple vs)) := by
+  have h1 : foldFirst P (.bin .in_ l (.tuple items)) = none := by
+    simp [foldFirst, asConst, hl, gate]
+  have h2 : foldFirst P (.tuple items) = some (.tuple vs) := by
+    simp [foldFirst, asConst, hc, gate, hL, hF]
+  refine ⟨?_, ?_⟩
+  · simp [constsC, foldedK, h1, h2]
+  · intro m ρ
+    rw [evalC] <;> try (intro h; cases h)
+    simp only [folded, h1]
+    cases evalC P m ρ l with
+    | error e => rfl
+    | ok a => simp [evalC, folded, h2, binInstr]
+
+/-- All four hoisting variants of `a in [c₁, …, cₙ]` - everything literal (folded at compile time),
+    the left operand a variable, the container a variable, both variables - ask the SAME question
+    `contains([c₁, …, cₙ], a)` of the shared `ops::contains`, whatever n and whatever the kinds of `a`
+    and of the items: no variant goes through another comparison relation. -/
+theorem in_literal_container_same_relation (P : Prims) (hB : P.foldsVariant "BinOp" = true)
+    (hL : P.foldsVariant "List" = true) (hF : P.codegenSpecial "fold-first" = true)
+    (m : Mode) (ρ : Env) (a : V) (ha : a ≠ .undef) (items : Exprs) (vs : List V)
+    (hc : constValues items = some vs) (x xs : String) (hx : ρ x = some a) (hxs : ρ xs = some (.list vs)) :
+    asConst P (.bin .in_ (.const a) (.list items)) = Except.toOpt (P.contains (.list vs) a) ∧
+    evalC P m ρ (.bin .in_ (.var x) (.list items)) = P.contains (.list vs) a ∧
+    evalC P m ρ (.bin .in_ (.const a) (.var xs)) = P.contains (.list vs) a ∧
+    evalC P m ρ (.bin .in_ (.var x) (.var xs)) = P.contains (.list vs) a := by
+  have hin : inInstr P m a (.list vs) = P.contains (.list vs) a := by
+    cases a <;> first | exact absurd rfl ha | simp [inInstr, assertDefined]
+  refine ⟨?_, ?_, ?_, ?_⟩
+  · simp [asConst, hc, gate, hB, hL, evalBinop]
+  · have := (in_literal_container_code P hL hF (.var x) items vs hc (by simp [asConst])).2 m ρ
+    rw [this]
+    simp [evalC, lookup, hx, hin]
+  · rw [evalC] <;> try (intro h; cases h)
+    simp [folded, foldFirst, asConst, gate, evalC, lookup, hxs, binInstr, hin]
+  · rw [evalC] <;> try (intro h; cases h)
+    simp [folded, foldFirst, asConst, gate, evalC, lookup, hx, hxs, binInstr, hin]
+
+/-- nine items, a boolean asked for among numbers (the shape of the seeded change's failing input) -/
+example : constValues (.cons (.const (.int 0)) (.cons (.const (.int 1)) (.cons (.const (.int 2)) (.cons (.const (.int 3))
+      (.cons (.const (.int 5)) (.cons (.const (.int 8)) (.cons (.const (.int 13)) (.cons (.const (.int 21))
+      (.cons (.const (.int 34)) .nil)))))))))
+    = some [.int 0, .int 1, .int 2, .int 3, .int 5, .int 8, .int 13, .int 21, .int 34] := by
+  simp [constValues]
+
+example : asConst P0 (.var "v0") = none ∧ P0.foldsVariant "List" = true ∧ P0.codegenSpecial "fold-first" = true ∧
+    (V.bool true) ≠ .undef := by
+  simp [asConst, P0]
+
+/-- `not in` on a literal container: a one-link comparison chain ends in `In; Not` on the same list -/
+theorem not_in_literal_container_code (P : Prims) (hL : P.foldsVariant "List" = true)
+    (hF : P.codegenSpecial "fold-first" = true) (l : Expr) (items : Exprs) (vs : List V)
+    (hc : constValues items = some vs) (hl : asConst P l = none) (m : Mode) (ρ : Env) :
+    evalC P m ρ (.cmp l (.cons .notIn (.list items) .nil)) =
+      (match evalC P m ρ l with
+       | .error e => .error e
+       | .ok a => match inInstr P m a (.list vs) with
+         | .error e => .error e
+         | .ok v => notInstr P m v) := by
+  have h1 : foldFirst P (.cmp l (.cons .notIn (.list items) .nil)) = none := by
+    simp [foldFirst, asConst, hl, gate]
+  have h2 : foldFirst P (.list items) = some (.list vs) := by
+    simp [foldFirst, asConst, hc, gate, hL, hF]
+  rw [evalC] <;> try (intro h; cases h)
+  simp only [folded, h1]
+  cases evalC P m ρ l with
+  | error e => rfl
+  | ok a =>
+    simp [evalCChain, evalC, folded, h2, finalCompare]
+    cases inInstr P m a (.list vs) <;> rfl
+
 /-! ## the full statement -/
 
 theorem C04_holds : C04_full := by
@@ -312,6 +545,55 @@ theorem call_block_without_guard_drops_caller :
   · exact { P0_lawful with }
   · simp [evalCallBlockC, evalCallBlockRt, evalCList, evalRtList, evalRtKws, evalRt, constKws, gate, P0]
 
+/-! ## statements: literals in statement heads
+
+A statement is compiled by compiling its head expressions through `compile_expr` and ALL of its
+statement lists, unconditionally (`stmt_traversal_from_source`): the block table - the compile-time
+effect of a template - and the set of macro declarations are functions of the tree's shape, and what
+a statement does at run time is a function of the values its compiled heads take. -/
+
+/-- Statement-level transparency: hoisting any subset of the literal sub-expressions of any heads of
+    a template (conditions of `if`, the iterable of `for`, the value of `set`/`with`, macro
+    defaults, filter arguments, include/extends/import targets, the arguments of `call`/`do`) into
+    variables changes neither the block table the code generator registers, nor the macro
+    declarations, nor the value (or error) of any compiled head in any environment of the scopes'
+    family `R` - in particular a condition that folds to a constant registers the blocks of BOTH
+    branches, exactly as a variable condition does. -/
+theorem stmt_hoist_transparent (P : Prims) (hP : P.Lawful) (R : Env → Prop) (s s' : Stmt) (hw : s.WF)
+    (h : HoistS P R s s') :
+    registeredBlocks s' = registeredBlocks s ∧ declaredMacros s' = declaredMacros s ∧
+    ∀ (m : Mode) (ρ : Env), R ρ → headVals P m ρ s' = headVals P m ρ s :=
+  ⟨hoistS_blocks s s' h, hoistS_macros s s' h, fun m ρ hρ => hoistS_headVals m ρ hP hρ s s' hw h⟩
+
+/-- `{% if false %}{% block b %}…{% endblock %}{% endif %}` and the same with the condition hoisted -/
+def s_if_lit : Stmt := .mk "IfCond" "" (.cons (.const (.bool false)) .nil)
+  (.cons (.cons (.mk "Block" "b" .nil (.cons .nil .nil)) .nil) (.cons .nil .nil))
+def s_if_var : Stmt := .mk "IfCond" "" (.cons (.var "c") .nil)
+  (.cons (.cons (.mk "Block" "b" .nil (.cons .nil .nil)) .nil) (.cons .nil .nil))
+/-- the scopes bind `c` to the literal's value -/
+def Rc : Env → Prop := fun ρ => ρ "c" = some (.bool false)
+
+theorem s_if_hoist (P : Prims) : HoistS P Rc s_if_lit s_if_var := by
+  simp only [s_if_lit, s_if_var, HoistS, HoistBodies, HoistStmts, HoistList]
+  refine ⟨_, _, rfl, ?_, _, _, rfl, ⟨_, _, rfl, ⟨_, _, rfl, ?_, _, _, rfl, rfl, rfl⟩, rfl⟩, _, _, rfl, rfl, rfl⟩
+  · intro ρ hρ
+    exact ⟨_, _, rfl, by rw [Hoist]; exact Or.inr ⟨"c", .bool false, rfl, by simp [asConst], hρ⟩, rfl⟩
+  · intro ρ _; rfl
+
+example : s_if_lit.WF ∧ registeredBlocks s_if_lit = ["b"] ∧ registeredBlocks s_if_var = ["b"] := by
+  refine ⟨by simp [s_if_lit, Stmt.WF, Bodies.WF, Stmts.WF, Exprs.WF, Expr.WF], by decide, by decide⟩
+
+/-- Constant-condition elimination (the seeded change C04-3: only the taken branch of an `if` whose
+    condition folds is compiled) is NOT transparent: the block of the untaken branch is registered
+    when the condition is a variable and missing when it is the literal - so the theorem above is a
+    statement about the traversal the source has, not about any traversal. -/
+theorem const_if_elimination_breaks_block_table :
+    ∃ (P : Prims) (R : Env → Prop) (s s' : Stmt), P.Lawful ∧ s.WF ∧ HoistS P R s s' ∧
+      registeredBlocksElim P s' ≠ registeredBlocksElim P s ∧ registeredBlocks s' = registeredBlocks s := by
+  refine ⟨P0, Rc, s_if_lit, s_if_var, P0_lawful, ?_, s_if_hoist P0, ?_, by decide⟩
+  · simp [s_if_lit, Stmt.WF, Bodies.WF, Stmts.WF, Exprs.WF, Expr.WF]
+  · simp [s_if_lit, s_if_var, registeredBlocksElim, blocksOfStmtsElim, blocksOfBodiesElim, asConst, P0]
+
 /-! ## the concrete, source-tied instance
 
 `Conc.prims` is the transcription of `value/ops.rs` & co. that the driver runs against the real
@@ -336,6 +618,24 @@ theorem concrete_call_block_keeps_caller (m : Mode) (ρ : Env) (name : String) (
     (caller : V) (hp : pos.WF) (hk : kws.WF) :
     evalCallBlockC Conc.prims m ρ name pos kws caller = evalCallBlockRt Conc.prims m ρ name pos kws caller :=
   call_block_static_kwargs_keep_caller Conc.prims concrete_prims_lawful (by decide) m ρ name pos kws caller hp hk
+
+/-- `in` on a literal container for the source-tied instance: the arms `List`/`BinOp` of `as_const` and
+    the fold-first scheme are in the regenerated tables, so every hoisting variant of
+    `a in [c₁, …, cₙ]` evaluates `Conc.contains [c₁, …, cₙ] a` (the transcription of `ops::contains`:
+    a scan with `==`) for every n and every kind of `a` and of the items -/
+theorem concrete_in_literal_container (m : Mode) (ρ : Env) (a : V) (ha : a ≠ .undef) (items : Exprs) (vs : List V)
+    (hc : constValues items = some vs) (x xs : String) (hx : ρ x = some a) (hxs : ρ xs = some (.list vs)) :
+    asConst Conc.prims (.bin .in_ (.const a) (.list items)) = Except.toOpt (Conc.prims.contains (.list vs) a) ∧
+    evalC Conc.prims m ρ (.bin .in_ (.var x) (.list items)) = Conc.prims.contains (.list vs) a ∧
+    evalC Conc.prims m ρ (.bin .in_ (.const a) (.var xs)) = Conc.prims.contains (.list vs) a ∧
+    evalC Conc.prims m ρ (.bin .in_ (.var x) (.var xs)) = Conc.prims.contains (.list vs) a :=
+  in_literal_container_same_relation Conc.prims (by decide) (by decide) (by decide) m ρ a ha items vs hc x xs hx hxs
+
+/-- the call-block theorem in its general form for the source-tied instance -/
+theorem concrete_call_block_all_forms (m : Mode) (ρ : Env) (kind : CallKind) (recv : Exprs) (name : String)
+    (args : Args) (caller : V) (hr : recv.WF) (ha : args.WF) :
+    evalCallBlockXC Conc.prims m ρ kind recv name args caller = evalCallBlockXRt Conc.prims m ρ kind recv name args caller :=
+  evalCallBlockX_eq m ρ concrete_prims_lawful (by decide) kind recv name args caller hr ha
 
 /-- the full statement for the concrete model: no hypothesis about the value operations is left -/
 theorem C04_concrete (m : Mode) (ρ : Env) (e : Expr) (hw : e.WF) :
